@@ -10,9 +10,10 @@ and derives what must / may be reported:
   must:  a well-formed SETUP token for (address, endpoint 0) immediately followed by a CRC-valid DATAx packet with
          exactly 8 bytes  =>  `received` strobes once shortly after, with the 8 bytes as fields, and is ACKed once
          inside the response window -- whatever came before (corrupted, short, aborted or unrelated packets).
-  may:   `received` only strobes for a CRC-valid 8-byte data packet while a SETUP token for us is the last token
-         addressed to us and it has not been consumed by an earlier report (what the device does with wrong-length or
-         corrupted data packets in between is left open: the statement does not say).
+  may:   `received` only strobes for a CRC-valid 8-byte data packet that directly follows a SETUP token for us (the
+         packet before it on the wire), like `must`; originally the monitor allowed any later data packet until the next
+         token *for us* -- which is how the implementation behaved and how the defect repaired by the "setup decoder only
+         takes the data packet that directly follows the SETUP token" commit stayed invisible to layers a/b.
 """
 from amaranth import *
 from ..harness import Harness
@@ -186,11 +187,7 @@ class SetupHarness(Harness):
         last_was_setup = Signal()    # the packet that ended most recently was a SETUP token for us
         armed = Signal()             # a SETUP token for us is the last token for us, no valid data packet since
         with m.If(spy.end):
-            m.d.usb += last_was_setup.eq(setup_tok)
-            with m.If(setup_tok):
-                m.d.usb += armed.eq(1)
-            with m.Elif(other_tok | may):
-                m.d.usb += armed.eq(0)
+            m.d.usb += [last_was_setup.eq(setup_tok), armed.eq(setup_tok)]
         m.d.comb += [must.eq(data8_ok & last_was_setup), may.eq(data8_ok & armed)]
         for nm, sg in (("armed", armed), ("may", may), ("must", must), ("data8_ok", data8_ok), ("tok_ok", tok_ok),
                        ("setup_tok", setup_tok), ("data_any_ok", data_any_ok), ("count", spy.count)):
@@ -436,19 +433,33 @@ def queries(tier):
     hs = {"*": {"speed": 0}}
     Kf = 24 if quick else 28
     qs.append(Query("bmc_free", free, Kf, timeout=1500, hints=hs, asserts=FAST,
-                    covers=["received", "ack", "setup_then_in"],
+                    covers=["received", "ack"],
                     desc=f"free UTMI timing, K={Kf}: one complete SETUP transaction with arbitrary byte gaps"))
     Kg = 34 if quick else 44
     qs.append(Query("bmc_gapless", gapless, Kg, timeout=1500, hints=hs, asserts=FAST,
-                    covers=["received", "ack", "after_bad_crc", "after_short_data", "after_aborted_setup", "wrong_length"],
+                    covers=["received", "ack", "after_bad_crc", "after_short_data", "after_aborted_setup", "wrong_length"] +
+                           ([] if quick else ["setup_then_in"]),
                     desc=f"no byte gaps inside packets, K={Kg}: arbitrary prefix packet(s) then a SETUP transaction"))
+    # the exactly-once / nothing-spurious clauses over *free* packet shapes are cheap as long as no complete 8-byte data
+    # packet fits behind a token (K=20: seconds; K=24: no answer in 900 s): runts, aborted packets, garbage after a token
+    for nm, fac in (("free", free), ("gapless", gapless)):
+        qs.append(Query(f"bmc_{nm}_short", fac, 20, timeout=900, hints=hs, asserts=["spurious", "ack_spurious"], covers=[],
+                        desc=f"{nm} layer, K=20: nothing is reported or ACKed after tokens followed by runt / aborted / "
+                             "garbage packets (no complete SETUP transaction fits)"))
+        if not quick:
+            qs.append(Query(f"bmc_{nm}_short22", fac, 22, timeout=1800, hints=hs, asserts=["spurious", "ack_spurious"],
+                            covers=[], required=False, desc=f"{nm} layer, K=22 (best effort)"))
     # transaction-level layer (cubes): exactly-once decoding, silence for everything else, after every kind of prefix
     s2 = lambda: SetupSlotHarness(2)
     s3 = lambda: SetupSlotHarness(3)
     SLOT = ["slot_missed", "slot_spurious", "slot_fields", "slot_ack_missing", "slot_ack_spurious"]
     # OUT data packets are enumerated by length (a symbolic length makes the framing symbolic: > 300 s instead of 0.05 s)
+    # the payload of a *corrupted* data packet is pinned (a SET_CONFIGURATION(1)-shaped SETUP payload / two OUT bytes): with a
+    # symbolic payload the solver has to refute "corrupted CRC == computed CRC" over 64 free bits before it can reason
+    # about the next transaction (unknown after 900 s; 0.05 s with the payload pinned)
     LEN = {"0": dict(kind=KIND_OUT, flag=0, olen=0), "1": dict(kind=KIND_OUT, flag=0, olen=1),
-           "2": dict(kind=KIND_OUT, flag=0, olen=2), "o": dict(kind=KIND_OUT, flag=1, olen=2)}
+           "2": dict(kind=KIND_OUT, flag=0, olen=2), "o": dict(kind=KIND_OUT, flag=1, olen=2, data=0xC3A5),
+           "s": dict(kind=KIND_SETUP, flag=1, data=0x0000000000010900)}
     for name, layer in slot_cubes(2, "SsIi012oNGFf", table=LEN):
         if quick and name[1] not in "Ss":
             continue
